@@ -383,3 +383,69 @@ package dnssec
 //@   assert at append#2: len(dst) == 18 && region(src) == region(name) && offset(src) == offset(name) && len(src) == lastret("github.com/miekg/dns.PackDomainName") && lastret("github.com/miekg/dns.PackDomainName", 1) == nil
 //@   assert at call middleware/resolver/dnssec.canonicalRRset#1: arg0 == rrset && arg1 == sig
 //@   assert at append#3: src == lastret("middleware/resolver/dnssec.canonicalRRset") && lastret("middleware/resolver/dnssec.canonicalRRset", 1) == nil
+//@
+//@ # per-algorithm verification (abstracting tier): success is returned only when the library primitive accepted the
+//@ # digest of the signed data (RSA: parsed, usable key; small exponents through crypto/rsa, wide ones through the
+//@ # in-house PKCS#1 v1.5 check of C14; ECDSA: fixed-width key and signature for the curve, point parsed on the curve,
+//@ # r and s the two halves of the signature; Ed25519: exact key and signature sizes, the message itself)
+//@ func rsaCryptoHash
+//@   modifies nothing
+//@   ensures result1 == (algorithm == dns.RSASHA1 || algorithm == dns.RSASHA1NSEC3SHA1 || algorithm == dns.RSASHA256 || algorithm == dns.RSASHA512)
+//@   ensures algorithm == dns.RSASHA1 || algorithm == dns.RSASHA1NSEC3SHA1 ==> result0 == crypto.SHA1
+//@   ensures algorithm == dns.RSASHA256 ==> result0 == crypto.SHA256
+//@   ensures algorithm == dns.RSASHA512 ==> result0 == crypto.SHA512
+//@
+//@ func verifyRSASignature
+//@   abstract
+//@   nosafety all pre
+//@   assert at call middleware/resolver/dnssec.usableRSAKey#1: lastret("middleware/resolver/dnssec.parseRSAPublicKey", 2) && arg0 == lastret("middleware/resolver/dnssec.parseRSAPublicKey") && arg1 == lastret("middleware/resolver/dnssec.parseRSAPublicKey", 1)
+//@   assert at call (hash.Hash).Write#1: lastret("middleware/resolver/dnssec.usableRSAKey") && arg1 == signed && lastret("middleware/resolver/dnssec.rsaHash", 2)
+//@   assert at call crypto/rsa.VerifyPKCS1v15#1: arg1 == lastret("middleware/resolver/dnssec.rsaCryptoHash") && lastret("middleware/resolver/dnssec.rsaCryptoHash", 1) && arg2 == lastret("(hash.Hash).Sum") && arg3 == signature && lastret("middleware/resolver/dnssec.usableRSAKey") && arg0.N == lastret("middleware/resolver/dnssec.parseRSAPublicKey")
+//@   assert at call middleware/resolver/dnssec.rsaVerifyPKCS1v15#1: arg0 == lastret("middleware/resolver/dnssec.parseRSAPublicKey") && arg1 == lastret("middleware/resolver/dnssec.parseRSAPublicKey", 1) && arg2 == lastret("middleware/resolver/dnssec.rsaHash", 1) && arg3 == lastret("(hash.Hash).Sum") && arg4 == signature && lastret("middleware/resolver/dnssec.usableRSAKey")
+//@   assert at return#5: result != nil
+//@   assert at return#6: result == nil && lastret("crypto/rsa.VerifyPKCS1v15") == nil
+//@   assert at return#7: result == lastret("middleware/resolver/dnssec.rsaVerifyPKCS1v15")
+//@   assert at return#1: result != nil
+//@   assert at return#2: result != nil
+//@   assert at return#3: result != nil
+//@   assert at return#4: result != nil
+//@
+//@ func verifyECDSASignature
+//@   abstract
+//@   nosafety all pre
+//@   assert at call crypto/ecdsa.ParseUncompressedPublicKey#1: len(public) == 2 * size && len(signature) == 2 * size && arg0 == lastret("middleware/resolver/dnssec.ecdsaParameters") && lastret("middleware/resolver/dnssec.ecdsaParameters", 2) && len(arg1) == 1 + len(public) && arg1[0] == 4
+//@   assert at call crypto/ecdsa.Verify#1: arg0 == lastret("crypto/ecdsa.ParseUncompressedPublicKey") && lastret("crypto/ecdsa.ParseUncompressedPublicKey", 1) == nil && arg1 == lastret("(hash.Hash).Sum") && arg2 == lastret("(*math/big.Int).SetBytes#1") && arg3 == lastret("(*math/big.Int).SetBytes#2")
+//@   assert at call (*math/big.Int).SetBytes#1: region(arg1) == region(signature) && offset(arg1) == offset(signature) && len(arg1) == size
+//@   assert at call (*math/big.Int).SetBytes#2: region(arg1) == region(signature) && offset(arg1) == offset(signature) + size && len(arg1) == size
+//@   assert at call (hash.Hash).Write#1: arg1 == signed
+//@   assert at return#7: result == nil && lastret("crypto/ecdsa.Verify")
+//@   assert at return#1: result != nil
+//@   assert at return#2: result != nil
+//@   assert at return#3: result != nil
+//@   assert at return#4: result != nil
+//@   assert at return#5: result != nil
+//@   assert at return#6: result != nil
+//@
+//@ func verifyEd25519Signature
+//@   abstract
+//@   nosafety all pre
+//@   assert at call crypto/ed25519.Verify#1: len(arg0) == 32 && len(signature) == 64 && arg1 == signed && arg2 == signature && lastret("middleware/resolver/dnssec.fromBase64", 1) == nil
+//@   assert at return#4: result == nil && lastret("crypto/ed25519.Verify")
+//@   assert at return#1: result != nil
+//@   assert at return#2: result != nil
+//@   assert at return#3: result != nil
+//@
+//@ # chunk filling: copies base64 octets, dropping CR and LF, never past either buffer
+//@ func fillKeyTagChunk
+//@   modifies elems(dst)
+//@   loop 1 invariant 0 <= consumed && consumed <= len(encoded) && 0 <= filled && filled <= len(dst) && filled <= consumed
+//@   ensures 0 <= filled && filled <= len(dst) && 0 <= consumed && consumed <= len(encoded) && filled <= consumed
+//@   ensures consumed < len(encoded) ==> filled == len(dst)
+//@   ensures forall i int :: {dst[i]} 0 <= i && i < filled ==> dst[i] != 13 && dst[i] != 10
+//@   loop 1 invariant forall i int :: {dst[i]} 0 <= i && i < filled ==> dst[i] != 13 && dst[i] != 10
+//@
+//@ # the RSA/MD5 key tag (last two octets of the modulus) never indexes outside its buffers, for any key string
+//@ func rsamd5KeyTag
+//@   loop 1 invariant 0 <= len(encoded) && 0 <= seen && seen <= 3
+//@   loop 2 invariant 0 <= len(encoded) && 0 <= seen && seen <= 3 && 0 <= decoded && decoded <= 192 && 0 <= i && i < decoded
+//@   note only panic-freedom (index/slice bounds) is claimed here
